@@ -312,10 +312,13 @@ def main(argv=None):
         unconfirmed = [v for v in run.violations if not v["confirmed"]]
         orc_ = run.oracle or {}
         oracle_clean = run.oracle is not None and not orc_.get("missing") and not orc_.get("crash") and not orc_.get("failures")
-        if unconfirmed and len(unconfirmed) == len(run.violations) and oracle_clean and all(v.get("refuted") for v in unconfirmed):
+        if unconfirmed and len(unconfirmed) == len(run.violations) and oracle_clean:
+            # no failing input exists for any failed obligation: neither a replayed counter-model nor the statement-level oracle produced one
             for v in unconfirmed:
-                run.out_of_reach.append({"section": v["obligation"], "reason": "obligation not established by the proof; the verifier's counter-models were replayed "
-                                         "on the real code and do not reproduce there (%s)" % v["replay"]})
+                how = ("the verifier's counter-models were replayed on the real code and do not reproduce there" if v.get("refuted")
+                       else "its counter-model cannot be replayed natively")
+                run.out_of_reach.append({"section": v["obligation"], "reason": "obligation not established by the proof; %s, and the bounded native oracle "
+                                         "finds no failing input (%s)" % (how, v["replay"])})
             run.extra["unestablished_obligations"] = [v["obligation"] for v in unconfirmed]
             run.violations = []
         if tier == "thorough":
